@@ -65,14 +65,14 @@ def rule(r, inp, ctx):
                 "IsBoolean": isinstance(var, bool),
                 "IsTimestamp": isinstance(var, str) and rfc3339.is_valid(var)}[op]
         return fact == const
+    if not present:
+        return False          # a rule whose Variable does not exist never matches, whatever it is compared with
     if op.endswith("Path"):
         op = op[:-4]
         try:
             const = JP.apply_path(inp, ctx, const)
         except JP.NoMatch:
             raise Ambiguous("comparison path matches nothing")
-    if not present:
-        return False
     if op == "StringMatches":
         return isinstance(var, str) and isinstance(const, str) and wildcard(const, var)
     if op == "BooleanEquals":
